@@ -78,3 +78,23 @@ Proof.
     eapply dp_step; [eapply dp_step; [apply dp_refl|]|]; (eexists; split; [vm_compute; reflexivity|vm_compute; tauto]). }
   split; [vm_compute; reflexivity|]. split; vm_compute; reflexivity.
 Qed.
+
+(* the load clause (C06_load_keeps_referrers) is not vacuous: the second load of the same document is a MERGE that is
+   accepted; the referrer 13 registered by the first load is still registered under its text, the reference element of the
+   second file (26) is appended *)
+Definition w_load_a : world := match load_tree "a" file_a new_world with Val (_, w) => w | _ => new_world end.
+Definition w_load_b : world := match load_tree "b" file_a w_load_a with Val (_, w) => w | _ => new_world end.
+
+Example load_extends_referrers_example :
+  exists xa xb,
+    load_tree "a" file_a new_world = Val (OK 0, w_load_a) /\ load_tree "b" file_a w_load_a = Val (OK 1, w_load_b) /\
+    model_at w_load_a 0 = Some xa /\ model_at w_load_b 0 = Some xb /\ m_files xa = [0] /\ NoDupKeys (m_origins xa) /\
+    origins_of xa (BS "/p1/S") = [13] /\ origins_of xb (BS "/p1/S") = [13; 26].
+Proof.
+  destruct (model_at w_load_a 0) as [xa|] eqn:Ea; [|vm_compute in Ea; discriminate Ea].
+  destruct (model_at w_load_b 0) as [xb|] eqn:Eb; [|vm_compute in Eb; discriminate Eb].
+  exists xa, xb. vm_compute in Ea. injection Ea as <-. vm_compute in Eb. injection Eb as <-.
+  split; [vm_compute; reflexivity|]. split; [vm_compute; reflexivity|]. split; [reflexivity|]. split; [reflexivity|].
+  split; [reflexivity|]. split; [|split; vm_compute; reflexivity].
+  unfold NoDupKeys. vm_compute. repeat constructor; intros [].
+Qed.
